@@ -3,52 +3,56 @@ CHECK = dict(
     technique=("exhaustive enumeration of a constructed object pool x fixed query alphabets on the real library; every returned number, hit list, "
                "polygon set and component list is judged by brute-force all-triangle / all-triangle-pair code (long double) that only sees the "
                "GetMeshGL64 export"),
-    level_text=("Object pool (built by enumeration, 362 objects): the 21 non-degenerate seeds of lib/alphabet.h under the 6 generic rigid motions of "
-                "harness/C02.cpp; all ordered pairs (x#T1, y#T4) of 8 seeds x {+,-,^}; 4 unary results (Refine(2), Scale(-1,1,1), Scale(.7,-1.3,1.1), "
-                "Mirror(1,1,0)) of every seed under one rigid motion; a candidate is kept iff it is NoError, non-empty, passes lib/topo.h's C01 "
-                "predicate, has 1-3 connected components, <= 3 handles, <= 1600 triangles and is not byte-identical to an earlier one. "
-                "Per object: Volume/SurfaceArea == signed-tetrahedron / triangle-area sums of the export (1e-12 relative + 8 eps per triangle x "
-                "|vertex|^3 resp. ^2); BoundingBox bit-equal to the tight box of the exported vertices; NumTri/NumVert/NumPropVert/NumEdge/NumProp/"
-                "IsEmpty/Genus == counts of the export after merge vectors; WindingNumber (one batch call + 64 single calls) == rounded solid-angle "
-                "winding at 64+343 lattice points; Slice at 7 generic heights: 2-D winding of the polygons == solid-angle winding of the mesh at "
-                "144 samples each; Project: winding > 0 of the returned polygons (and coverage by CrossSection(polygons), positive fill) iff the "
-                "vertical line through the sample crosses a triangle, 256 samples; Decompose: as many parts as brute-force components (union-find "
-                "over triangles sharing merged vertices), each part a closed connected manifold whose triangle set is exactly one component, "
-                "volumes matching pairwise and summing to the whole. RayCast: every ordered pair of the 64 points of a 4x4x4 lattice (irrational "
-                "offsets, 1.3 x the bounding box) as (origin, endpoint), 4032 segments per object, on every pool object: hits sorted, distance in "
-                "[0,1], position == origin + distance*(endpoint-origin) within 1e-9, number of hits and their parameters == the proper crossings "
-                "found by Moeller-Trumbore over all triangles, parity == parity of the solid-angle winding difference of the two ends, normal == "
-                "unit normal of the crossed triangle, position on the exported triangle named by faceID and faceIDs == crossed triangles. MinGap: "
-                "all ordered pairs of a 48-member placed family (42 pool objects under 8 translations + 6 shrunken objects placed deep inside a "
-                "host) x searchLength {0.1,1,10}: == min over all triangle pairs of an independent triangle-triangle distance (6 vertex-triangle + "
-                "9 edge-edge distances), clamped, and 0 iff an edge of one surface crosses a triangle of the other or a component of one has a "
-                "vertex with non-zero winding in the other."),
+    level_text=("Object pool (built by enumeration; 679 objects quick, 972 thorough): the 21 non-degenerate seeds of lib/alphabet.h under the 6 "
+                "generic rigid motions of harness/C02.cpp; all ordered pairs (x#T1, y#T4) of 15 seeds (all 21 in thorough) x {+,-,^}; 4 unary results "
+                "(Refine(2), Scale(-1,1,1), Scale(.7,-1.3,1.1), Mirror(1,1,0)) of every seed under one rigid motion; a candidate is kept iff it is "
+                "NoError, non-empty, passes lib/topo.h's C01 predicate, has 1-3 connected components, <= 3 handles, <= 1600 triangles and is not "
+                "byte-identical to an earlier one. "
+                "Per object: Volume/SurfaceArea == signed-tetrahedron / triangle-area sums of the export (1e-12 relative + 16 eps per triangle x "
+                "|vertex|^3 resp. ^2); BoundingBox bit-equal to the tight box of the exported vertices; NumTri/NumVert/NumEdge/NumProp/IsEmpty/"
+                "Genus (and, under its own key class, NumPropVert) == counts of the export after merge vectors; WindingNumber (one batch call + 64 "
+                "single calls) == rounded solid-angle winding at 64+343 lattice points; Slice at 7 generic heights: 2-D winding of the polygons == "
+                "solid-angle winding of the mesh at 144 samples each; Project: winding > 0 of the returned polygons (and coverage by "
+                "CrossSection(polygons), positive fill) iff the vertical line through the sample crosses a triangle, 256 samples; Decompose: as many "
+                "parts as brute-force components (union-find over triangles sharing merged vertices), each part a closed connected manifold whose "
+                "triangle set is exactly one component and whose Volume() is that component's, volumes summing to the whole. RayCast: every ordered "
+                "pair of the 64 points of a 4x4x4 lattice (irrational offsets, 1.3 x the bounding box) as (origin, endpoint), 4032 segments per "
+                "object, on every pool object: hits sorted, distance in [0,1], position == origin + distance*(endpoint-origin) within 1e-9, number "
+                "of hits and their parameters == the proper crossings found by Moeller-Trumbore over all triangles, parity == parity of the "
+                "solid-angle winding difference of the two ends, normal == unit normal of the crossed triangle, position on the exported triangle "
+                "named by faceID and faceIDs == crossed triangles. MinGap: all ordered pairs of a 48-member placed family (42 pool objects under 8 "
+                "translations + 6 shrunken objects placed deep inside a host) x searchLength {0.1,1,10}: == min over all triangle pairs of an "
+                "independent triangle-triangle distance (6 vertex-triangle + 9 edge-edge distances), clamped, and 0 iff an edge of one surface "
+                "crosses a triangle of the other or a component of one has a vertex with non-zero winding in the other."),
     level_note=("Trusted: compiler, lib/solid.h (solid-angle winding, point-triangle distance), lib/geom2.h (2-D winding), lib/topo.h, and the ~250 "
                 "lines of brute-force code in harness/C18.cpp. General position is enforced by skipping, not by tolerance: lattice points within "
                 "1e-6 (x scale) of the surface, segments passing within 1e-7 of any triangle edge, Project samples within 1e-6 of any projected "
-                "edge, and pairs of solids whose surfaces come within 1e-6 without a robust crossing are not judged (8 segments and 4 pairs in the "
-                "quick tier). Pool objects are not audited for self-intersection; none of the oracles depends on it (all are statements about a "
-                "closed oriented surface), and the winding number at all 147k sample points was 0 or 1. The seq-asan run repeats every 3rd object "
-                "(measure), every 6th (raycast) and a 16-member MinGap family."),
-    # quiet machine: seq-fast quick ~17 s, thorough ~4 min; seq-asan quick ~60 s.  Budgets are deadlines with slack for a shared machine.
+                "edge, and pairs of solids whose surfaces come within 1e-6 without a robust crossing are not judged (14 of 2.7M segments and 2 of "
+                "2256 pairs in the quick tier). Pool objects are not audited for self-intersection; none of the oracles depends on it (all are "
+                "statements about a closed oriented surface), and the winding number at all 276k sample points was 0 or 1. The seq-asan run uses "
+                "the 8-seed Boolean alphabet (362 objects) and repeats every 3rd object (measure), every 6th (raycast) and a 16-member MinGap "
+                "family."),
+    # loaded machine: seq-fast quick ~20 s, thorough ~4 min; seq-asan ~35 s.  Budgets are deadlines with slack for a shared machine.
     runs=[S("seq-fast", quick=300, thorough=2400, workers=8, case_timeout=120),
           S("seq-asan", quick=600, thorough=900, workers=8, case_timeout=300, args=["--asan-subset"])],
-    rule=("phases measure (one case per pool object), raycast (one case per pool object = all 4032 ordered lattice-point pairs), mingap (one case "
+    rule=("phases measure (one case per pool object), raycast (one case per pool object = all ordered lattice-point pairs), mingap (one case "
           "per ordered pair of the placed family = 3 search lengths). Every phase enumerates its whole index space. distinct = distinct objects "
           "(byte hash of the export) resp. distinct ordered pairs; non-trivial = objects with more than one component or a handle (measure), "
           "objects with at least one hit (raycast), pairs with a positive gap below at least one search length (mingap). Counters give the "
           "judged sample points, segments, hits, and the MinGap outcome classes (crossing / contained / gap below L / clamped). At most one "
           "violation per check class and object is reported; its key names the first failing query, its detail the number of failing queries."),
-    bounds=dict(quick=("362 objects (<= 992 triangles, 13.4k in total; 1-3 components, 0-3 handles); 407 winding points, 7x144 slice samples, 256 "
-                       "projection samples per object; 64-point ray lattice = 1.46M segments; 48 placed objects = 2256 ordered pairs x 3 search "
+    bounds=dict(quick=("679 objects (<= 992 triangles, 22.2k in total; 1-3 components, 0-3 handles); 407 winding points, 7x144 slice samples, 256 "
+                       "projection samples per object; 64-point ray lattice = 2.74M segments; 48 placed objects = 2256 ordered pairs x 3 search "
                        "lengths"),
-                thorough=("the same pool; 216-point ray lattice (46 440 segments per object, 16.8M in total), 64+1331 winding points, 7x576 slice "
-                          "samples, 1024 projection samples per object; 96 placed objects = 9120 ordered pairs x 3 search lengths")),
+                thorough=("972 objects (all 21 seeds as Boolean operands, 53.6k triangles); 216-point ray lattice (46 440 segments per object, 45M "
+                          "in total), 64+1331 winding points, 7x576 slice samples, 1024 projection samples per object; 144 placed objects = 20 592 "
+                          "ordered pairs x 3 search lengths")),
     assumptions=COMMON_ASSUME + [
         "query arguments are generic: points within 1e-6 of the surface, segments within 1e-7 of a triangle edge or vertex, projection samples within "
         "1e-6 of a projected edge and solid pairs that touch within 1e-6 without crossing are not judged",
         "RayHit::faceID ('the triangle index that was hit') is read as an index into the triangles of GetMeshGL64(), the only triangle numbering the "
         "public API exposes",
+        "NumPropVert ('the number of property vertices ... always >= NumVert') is read as the number of vertices of the export",
         "hits exactly at the segment's ends, slices at the bounding box's bottom/top and coincident solids are outside the general-position quantifier",
     ],
 )
